@@ -7,7 +7,11 @@
 #include "vt_engines.hpp"
 #include "vt_trace.hpp"
 
+#include <algorithm>
+#include <cmath>
 #include <cstdlib>
+#include <limits>
+#include <random>
 #include <set>
 #include <vector>
 
@@ -85,9 +89,45 @@ static void run_mc(std::vector<int> const& w, std::vector<long long> const& js, 
     auto r = hep::multi_channel(integrand, std::vector<std::size_t>{js.size()}, chk, hep::callback<C>(hep::callback_mode::silent));
     bool same_enabled = true;
     for (auto const& en : lg.enabled) same_enabled = same_enabled && (en == lg.enabled.front());
+    // the selector normalises what it is given: its probabilities are the weights the result records only if those sum to one
+    long double rsum = 0.0L;
+    for (T x : r.results()[0].channel_weights()) rsum += x;
+    bool const sum_ok = std::fabs(rsum - 1.0L) <= 4.0L * (long double) n * std::numeric_limits<T>::epsilon();
     vt::ev("McPick").s("via", "mc").s("T", vt::type_name<T>::get()).s("scale", sc).a("w", w).a("js", js)
         .a("idx", lg.int_chan).a("mapidx", lg.map_chan).a("enabled", lg.enabled.empty() ? std::vector<long long>() : lg.enabled.front())
-        .b("sameEnabled", same_enabled).i("calls", (long long) r.results()[0].calls()).emit();
+        .b("sameEnabled", same_enabled).i("calls", (long long) r.results()[0].calls()).i("sumOk", sum_ok ? 1 : 0).emit();
+}
+
+// adaptive runs with a minimum weight that clamps: the weights every iteration records (and selects with) sum to one
+template <typename T>
+static void run_mc_norm(vt::rng& g, int run)
+{
+    std::size_t const n = 2 + g.below(3);
+    std::vector<T> w(n, T(1));
+    w[g.below(n)] = T(20 + g.below(20));
+    T const minw = T(1 + g.below(3)) / T(10 * n);
+    auto map = [n](std::size_t ch, std::vector<T> const& r, std::vector<T>& c, std::vector<std::size_t> const&, std::vector<T>& d, hep::multi_channel_map) {
+        T u = r[0];
+        c[0] = ch % 2 ? u * u : u;
+        for (std::size_t j = 0; j != n; ++j) d[j] = j % 2 ? (c[0] > T() ? T(0.5) / std::sqrt(c[0]) : T(1e6)) : T(1);
+        return T(1);
+    };
+    auto fn = [](hep::multi_channel_point<T> const& p) { T y = p.coordinates()[0]; return T(1) + y * y; };
+    auto chk = hep::make_multi_channel_chkpt<T>(w, minw, T(0.5), std::mt19937((unsigned) g.below(100000)));
+    using C = decltype(chk);
+    auto r = hep::multi_channel(hep::make_multi_channel_integrand<T>(fn, 1, map, 1, n), std::vector<std::size_t>(3, 200), chk, hep::callback<C>(hep::callback_mode::silent));
+    long long worst = 0;
+    std::vector<std::vector<T>> all;
+    for (auto const& it : r.results()) all.push_back(it.channel_weights());
+    all.push_back(r.channel_weights());
+    for (auto const& v : all)
+    {
+        long double s = 0.0L;
+        for (T x : v) s += x;
+        long double dev = std::fabs(s - 1.0L) / std::numeric_limits<T>::epsilon();
+        worst = std::max(worst, std::isfinite((double) dev) ? (long long) std::ceil(dev) : 999999999LL);
+    }
+    vt::ev("McNorm").s("T", vt::type_name<T>::get()).i("run", run).i("n", (long long) n).i("devEps", worst).emit();
 }
 
 template <typename T>
@@ -285,6 +325,11 @@ static bool dyadic_sum(std::vector<int> const& w)
     return (S & (S - 1)) == 0;
 }
 
+static void norm_family(vt::rng& g, int count)
+{
+    for (int k = 0; k != count; ++k) { if (k % 3 == 0) run_mc_norm<float>(g, k); else if (k % 3 == 1) run_mc_norm<double>(g, k); else run_mc_norm<long double>(g, k); }
+}
+
 int main(int argc, char** argv)
 {
     if (argc < 5) return 2;
@@ -345,6 +390,7 @@ int main(int argc, char** argv)
     for (int lead = 0; lead != 3; ++lead)
         for (int trail = 0; trail != 3; ++trail) { top_boundary<float>(lead, trail); top_boundary<double>(lead, trail); top_boundary<long double>(lead, trail); }
     raw_family(g, thorough ? 1500 : 300);
+    norm_family(g, thorough ? 60 : 15);
     wide_family<float>(g, thorough ? 1000 : 200); wide_family<double>(g, thorough ? 1000 : 200); wide_family<long double>(g, thorough ? 1000 : 200);
     any_family<float>(g, thorough ? 3000 : 600); any_family<double>(g, thorough ? 3000 : 600); any_family<long double>(g, thorough ? 3000 : 600);
     vt::out().close();
